@@ -353,7 +353,7 @@ func (r *Runtime) arrayproto_slice(call FunctionCall) Value {
 	}
 
 	a := arraySpeciesCreate(o, count)
-	if src := r.checkStdArrayObj(o); src != nil {
+	if src := r.checkStdArrayObj(o); src != nil && int64(len(src.values)) == length {
 		if dst := r.checkStdArrayObjWithProto(a); dst != nil {
 			values := make([]Value, count)
 			copy(values, src.values[start:])
@@ -446,17 +446,13 @@ func (r *Runtime) arrayproto_splice(call FunctionCall) Value {
 		panic(r.NewTypeError("Invalid array length"))
 	}
 	a := arraySpeciesCreate(o, actualDeleteCount)
-	if src := r.checkStdArrayObj(o); src != nil {
-		if dst := r.checkStdArrayObjWithProto(a); dst != nil {
-			values := make([]Value, actualDeleteCount)
-			copy(values, src.values[actualStart:])
-			setArrayValues(dst, values)
-		} else {
-			for k := int64(0); k < actualDeleteCount; k++ {
-				createDataPropertyOrThrow(a, intToValue(k), src.values[k+actualStart])
-			}
-			a.self.setOwnStr("length", intToValue(actualDeleteCount), true)
-		}
+	// the dense fast path is taken only if the result array is a plain array as well: storing into
+	// anything else (a Proxy returned by the species constructor) runs script, which may change the source
+	src, dst := r.checkStdArrayObj(o), r.checkStdArrayObjWithProto(a)
+	if src != nil && dst != nil && src != dst && int64(len(src.values)) == length {
+		deleted := make([]Value, actualDeleteCount)
+		copy(deleted, src.values[actualStart:])
+		setArrayValues(dst, deleted)
 		var values []Value
 		if itemCount < actualDeleteCount {
 			values = src.values
@@ -606,7 +602,7 @@ func (r *Runtime) arrayproto_indexOf(call FunctionCall) Value {
 
 	searchElement := call.Argument(0)
 
-	if arr := r.checkStdArrayObj(o); arr != nil {
+	if arr := r.checkStdArrayObj(o); arr != nil && int64(len(arr.values)) == length {
 		for i, val := range arr.values[n:] {
 			if searchElement.StrictEquals(val) {
 				return intToValue(n + int64(i))
@@ -650,7 +646,7 @@ func (r *Runtime) arrayproto_includes(call FunctionCall) Value {
 		searchElement = _positiveZero
 	}
 
-	if arr := r.checkStdArrayObj(o); arr != nil {
+	if arr := r.checkStdArrayObj(o); arr != nil && int64(len(arr.values)) == length {
 		for _, val := range arr.values[n:] {
 			if searchElement.SameAs(val) {
 				return valueTrue
@@ -692,7 +688,7 @@ func (r *Runtime) arrayproto_lastIndexOf(call FunctionCall) Value {
 
 	searchElement := call.Argument(0)
 
-	if arr := r.checkStdArrayObj(o); arr != nil {
+	if arr := r.checkStdArrayObj(o); arr != nil && int64(len(arr.values)) == length {
 		vals := arr.values
 		for k := fromIndex; k >= 0; k-- {
 			if v := vals[k]; v != nil && searchElement.StrictEquals(v) {
@@ -1055,7 +1051,7 @@ func (r *Runtime) arrayproto_copyWithin(call FunctionCall) Value {
 	}
 	final := relToIdx(relEnd, l)
 	count := min(final-from, l-to)
-	if arr := r.checkStdArrayObj(o); arr != nil {
+	if arr := r.checkStdArrayObj(o); arr != nil && int64(len(arr.values)) == l {
 		if count > 0 {
 			copy(arr.values[to:to+count], arr.values[from:from+count])
 		}
@@ -1098,7 +1094,7 @@ func (r *Runtime) arrayproto_fill(call FunctionCall) Value {
 	}
 	final := relToIdx(relEnd, l)
 	value := call.Argument(0)
-	if arr := r.checkStdArrayObj(o); arr != nil {
+	if arr := r.checkStdArrayObj(o); arr != nil && int64(len(arr.values)) == l {
 		for ; k < final; k++ {
 			arr.values[k] = value
 		}
@@ -1374,7 +1370,7 @@ func (r *Runtime) arrayproto_toSpliced(call FunctionCall) Value {
 		panic(r.NewTypeError("Invalid array length"))
 	}
 
-	if src := r.checkStdArrayObj(o); src != nil {
+	if src := r.checkStdArrayObj(o); src != nil && int64(len(src.values)) == length {
 		var values []Value
 		if itemCount == actualSkipCount {
 			values = make([]Value, len(src.values))
